@@ -16,10 +16,10 @@ FAMILIES = {
                 "tiers": {"quick": {"num": 120, "depth": 30, "workers": 4}, "thorough": {"num": 4000, "depth": 40, "workers": 8, "timeout": 1800}}},
         "trace_module": "RnsTrace", "trace_cfg": "Rns-trace.cfg",
         "vh_cfg": {},
-        # two name sets: label lengths 5 / 2 / 4 and 1 / 3 / 6 (+ a 10-character .ibc name): every price tier of both TLDs
+        # two name sets: label lengths 5 / 2 / 4 and 1 / 3 / 5 / 8, the latter two containing the letters of their own TLD: every price tier of both TLDs
         "variants": [{"vh_cfg": {}, "sim_subst": {}},
-                     {"vh_cfg": {"names": ["x.jkl", "abc.jkl", "abcdef.jkl", "longername.ibc"]},
-                      "sim_subst": {"Names": '{"x.jkl", "abc.jkl", "abcdef.jkl", "longername.ibc"}'}}],
+                     {"vh_cfg": {"names": ["x.jkl", "abc.jkl", "myjkl.jkl", "tokenibc.ibc"]},
+                      "sim_subst": {"Names": '{"x.jkl", "abc.jkl", "myjkl.jkl", "tokenibc.ibc"}'}}],
         "tiers": {"quick": {"rand": 200, "rlen": 40, "chunks": 8}, "thorough": {"rand": 6000, "rlen": 60, "chunks": 14}},
     },
     "sd": {
